@@ -253,6 +253,38 @@ pub fn gen_uri(r: &mut Rng) -> GenUri {
     GenUri { text, scheme, userinfo, host, port, path, query }
 }
 
+impl GenUri {
+    /// the same target with one component changed (text rebuilt from the parts)
+    pub fn with(&self, port: Option<Option<u16>>, path: Option<&str>, host: Option<&str>) -> GenUri {
+        let mut v = GenUri { text: String::new(), scheme: self.scheme, userinfo: self.userinfo.clone(), host: self.host.clone(), port: self.port, path: self.path.clone(), query: self.query.clone() };
+        if let Some(p) = port {
+            v.port = p;
+        }
+        if let Some(p) = path {
+            v.path = p.to_string();
+        }
+        if let Some(h) = host {
+            v.host = h.to_string();
+        }
+        let mut text = format!("{}://", v.scheme);
+        if let Some(u) = &v.userinfo {
+            text.push_str(u);
+            text.push('@');
+        }
+        text.push_str(&v.host);
+        if let Some(p) = v.port {
+            text.push_str(&format!(":{}", p));
+        }
+        text.push_str(&v.path);
+        if let Some(q) = &v.query {
+            text.push('?');
+            text.push_str(q);
+        }
+        v.text = text;
+        v
+    }
+}
+
 pub fn canon_line(u: &GenUri) -> String {
     format!("canon {} {} {} {}", hex(u.text.as_bytes()), hex(u.host.as_bytes()), u.port.map(|p| p.to_string()).unwrap_or("-".into()), hex(u.path.as_bytes()))
 }
